@@ -22,6 +22,8 @@ from ._common import dim_generic
 
 def run(model, rep, tier):
     rep.explanation = __doc__.strip()
+    from ._common import caches_for
+    caches_for(model, rep, 'C11')
     rep.not_decided = 'that the activation-barrier and elastodiffusion outputs equal the derivatives of D (numerical)'
     rep.rule('project-then-transport', 'populated dipole = g_tensor(g, ProjectTensorBasis(input, representative basis)) with aligned zips')
     rep.rule('representative-coherent', 'bases and group operations refer to the same representative; operation maps representative onto member')
